@@ -79,5 +79,75 @@ impl<const N: usize> Bitset<N> {
         ((self.data[x / 64] >> (x % 64)) & 1) > 0
     }
 }
+
+pub struct BitsIter<'a, const N: usize> {
+    pub data: &'a [u64; N],
+    pub idx: usize,
+}
+pub open spec fn dbit<const N: usize>(d: &[u64; N], i: int) -> bool { wbit(d@[i / 64], i % 64) }
+
+proof fn lemma_word_zero_tail(w: u64, k: u64)
+    requires k < 64, (w >> k) == 0
+    ensures forall|j: u64| k <= j < 64 ==> !wbit(w, j as int)
+{
+    assert forall|j: u64| k <= j < 64 implies !wbit(w, j as int) by {
+        assert((w >> k) == 0 && k <= j && j < 64 ==> (w >> j) & 1 == 0) by(bit_vector);
+    }
+}
+proof fn lemma_tz(w: u64, k: u64)
+    requires k < 64, (w >> k) != 0
+    ensures ({ let t = vstd::std_specs::bits::u64_trailing_zeros(w >> k) as u64;
+        k + t < 64 && wbit(w, (k + t) as int) && forall|j: u64| k <= j < k + t ==> !wbit(w, j as int) })
+{
+    let v = w >> k;
+    vstd::std_specs::bits::axiom_u64_trailing_zeros(v);
+    let t = vstd::std_specs::bits::u64_trailing_zeros(v) as u64;
+    assert(k < 64 && t < 64 && ((w >> k) >> t) & 1 == 1 ==> k + t < 64 && (w >> ((k + t) as u64)) & 1 == 1) by(bit_vector);
+    assert forall|j: u64| k <= j < k + t implies !wbit(w, j as int) by {
+        let d = (j - k) as u64;
+        assert((v >> d) & 1 == 0);
+        assert(k < 64 && d < 64 && k + d < 64 && j == k + d ==> ((w >> k) >> d) & 1 == (w >> j) & 1) by(bit_vector);
+    }
+}
+
+impl<const N: usize> BitsIter<'_, N> {
+    // body of `impl Iterator for BitsIter::next`
+    fn next(&mut self) -> (r: Option<usize>)
+        requires old(self).idx <= 64 * N, N < 0x100_0000_0000_0000,
+        ensures final(self).data == old(self).data, final(self).idx <= 64 * N,
+            match r {
+                Some(i) => old(self).idx <= i < 64 * N && dbit(old(self).data, i as int) && final(self).idx == i + 1
+                    && forall|j: int| old(self).idx <= j < i ==> !dbit(old(self).data, j),
+                None => forall|j: int| old(self).idx <= j < 64 * N ==> !dbit(old(self).data, j),
+            },
+    {
+        while self.idx < self.data.len() * 64 && (self.data[self.idx / 64] >> (self.idx % 64)) == 0
+            invariant self.data == old(self).data, old(self).idx <= self.idx <= 64 * N, N < 0x100_0000_0000_0000,
+                forall|j: int| old(self).idx <= j < self.idx ==> !dbit(self.data, j),
+            decreases 64 * N - self.idx,
+        {
+            proof {
+                let k = (self.idx % 64) as u64; let w = self.data@[self.idx as int / 64];
+                lemma_word_zero_tail(w, k);
+                let nx: usize = ((self.idx + 64) as usize) & !(63usize);
+                let i0 = self.idx;
+                assert(nx == ((i0 / 64 + 1) * 64) as usize) by(bit_vector) requires nx == ((i0 + 64) as usize) & !(63usize), i0 < 0x4000_0000_0000_0000usize;
+                assert forall|j: int| self.idx <= j < nx implies !dbit(self.data, j) by {
+                    assert(j / 64 == self.idx as int / 64);
+                    assert(!wbit(w, (j % 64) as u64 as int));
+                }
+            }
+            self.idx = (self.idx + 64) & !(63usize);
+        }
+        if self.idx >= self.data.len() * 64 {
+            None
+        } else {
+            proof { lemma_tz(self.data@[self.idx as int / 64], (self.idx % 64) as u64); }
+            self.idx += (self.data[self.idx / 64] >> (self.idx % 64)).trailing_zeros() as usize;
+            self.idx += 1;
+            Some(self.idx - 1)
+        }
+    }
+}
 } // verus!
 fn main() {}
